@@ -36,6 +36,8 @@ def run(ctx):
     # the cascades find dependents through the reverse indices only: a forward data reference written without its index entry is invisible to them
     from props.c01 import lowlevel_rule
     lowlevel_rule(ctx, prog, rid="C02.INDEXED")
+    from props.c01 import triple_rule
+    triple_rule(ctx, syn, rid="C02.TRIPLE")   # the metadata cascades read and clear rows of these maps
     rank_rule(ctx, syn)
     revisit_rule(ctx, syn)
     live_rule(ctx, prog)
@@ -108,7 +110,9 @@ def run(ctx):
         for idx, keys in sorted(indices.items()):
             if htype not in keys or (kind, idx) in SUBSTITUTE:
                 continue
-            reads = set(bi for bi, blk in enumerate(b.blocks) if not blk.get("cleanup") and ('"n": "%s"' % idx) in _json.dumps(blk))
+            # a consultation is a look-up (`get` on the map or on its rows), not any mention of the field (remove_second / remove_all clear rows)
+            reads = set(bi for bi, blk in enumerate(b.blocks) if not blk.get("cleanup") and ('"n": "%s"' % idx) in _json.dumps(blk)
+                        and blk["t"]["t"] == "call" and re.search(r"::get$", mirq.callee_of(blk["t"])[0] or ""))
             for ri, rb in enumerate(removals):
                 n_after += 1
                 k = "%s:%s#%d" % (kind, idx, ri + 1)
